@@ -42,6 +42,7 @@ import (
 	"flag"
 	"fmt"
 	"log"
+	"math"
 	"strings"
 	"sync"
 	"time"
@@ -78,8 +79,15 @@ func (t timeResult) worstCaseDrift() time.Duration {
 	if drift < 0 {
 		drift = -drift
 	}
-	drift += t.End.Sub(t.Start)
-	return drift
+	// time.Time.Sub saturates when the clocks are more than ~292 years
+	// apart. Neither negating the minimum duration nor adding the round-trip
+	// time to the maximum duration may wrap around: the result would look
+	// like a small drift.
+	roundTrip := t.End.Sub(t.Start)
+	if drift < 0 || (roundTrip > 0 && drift > math.MaxInt64-roundTrip) {
+		return math.MaxInt64
+	}
+	return drift + roundTrip
 }
 
 func getServerTime(server, networkPassword string) (timeResult, health.ServerStatus, error) {
